@@ -6,8 +6,9 @@ from props.hmcommon import *
 
 _base_harnesses = harnesses
 def harnesses(tier):
-    return _base_harnesses(tier) + [('hm', ('XV_RECL=GC',), False, '_gc')]
+    return _base_harnesses(tier) + [('hm', ('XV_RECL=GC',), False, '_gc'), ('hmm', ('XV_RECL=GC',), False, '_gc')]
 HARNESSES = harnesses('quick')
+PROPERTY_FILES = ['Properties_C09', 'Properties_C09_hmm']
 THEOREM_NOTES = {
     'scope': 'the theorems are about the list model of C08 extended with the iterator operations of harris_michael_list_based_set (begin, find-as-iterator, operator++ with its retry loop, operator*, reset, erase(iterator)), one iterator per thread, over a reclaimer that never reuses a referenced node (that is where C01 is used): every node an iterator step touches is allocated and in the chain or retired; every yielded node was linked by a recorded insert and reachable when the iterator moved onto it; yielded keys never decrease and a key is yielded again only through a different node re-inserted between the two yields; a traversal from begin() (find k) that reaches end has yielded every key (> k) that was in the abstract set in every state of the traversal; erase(iterator) marks exactly the node it stands on and returns end / a greater key / a re-inserted equal key; operator++ terminates solo within 4*|chain|+8 steps. Three over-strong formalisations are refuted with schedules replayed on the code (a yielded element may already have been logically erased by a still-running erase; keys are not STRICTLY increasing across a re-insertion; the successor returned by erase may carry an equal re-inserted key): they concern the fixed linearization points of the model, not the black-box property, which only speaks about calls that have returned. harris_michael_hash_map iterators (bucket transitions), iterator copies and the real reclaimers are covered by the search only',
 }
@@ -26,6 +27,7 @@ def run(ctx):
     thorough = tier == 'thorough'
     Hs = ctx['H']
     n = 2000 if thorough else 250
+    run_corpus(ctx, Hs['hm_hp'], 'C09')
     # ---- tie: the list + iterator model (Model/HmlItDefs.v) reproduces the implementation's traces
     Hgc = Hs.pop('hm_gc')
     fixed = [[['ins 10', 'ins 20', 'ins 30', 'itb', 'itn', 'itn', 'itn'], ['del 20', 'ins 25']],
@@ -38,6 +40,11 @@ def run(ctx):
     cases = [({'c': 'set'}, p) for p in fixed] + [({'c': 'set'}, itprog()) for _ in range(8 if thorough else 4)]
     st = do_correspondence(ctx, 'hmlit', Hgc, cases, 10 if thorough else 6, 'harris_michael_list_iterators')
     tie = tie_broken_sig(st, 'hmlit')
+    # ---- tie: the hash map model with iterators across buckets (Model/HmmDefs.v)
+    Hmm = Hs.pop('hmm_gc')
+    mcases = list(HMM_FIXED) + [hmm_model_program(rng) for _ in range(8 if thorough else 4)]
+    stm = do_correspondence(ctx, 'hmm', Hmm, mcases, 10 if thorough else 6, 'harris_michael_hash_map_iterators')
+    tie = tie or tie_broken_sig(stm, 'hmm')
     for name, H in sorted(Hs.items()):
         jobs = []
         for cfg in (CONFIGS if thorough else rng.sample(CONFIGS, 4)):
@@ -57,6 +64,13 @@ def run(ctx):
         for cfg in ({'c': 'set'}, {'c': 'map', 'buckets': '1', 'memo': '0'}, {'c': 'map', 'buckets': '1', 'memo': '1', 'hash': 'const'}):
             jobs.append((cfg, [['ins 10', 'ins 20', 'ins 30', 'ins 40', 'itf 20', 'ite', 'itd', 'itn', 'itd'], ['del 30']], 'prefix', 300, ctx['seed'], ()))
             jobs.append((cfg, [['ins 10', 'ins 20', 'itb', 'ite', 'itd', 'itn'], ['del 20', 'ins 20']], 'prefix', 200, ctx['seed'], ()))
+        # memoized hash that is not monotone in the key inside one bucket (mod2 / rev): the element the iterator stands on is erased, the
+        # re-location by (hash, key) must not skip elements ahead (repaired defect 51d54d4)
+        for cfg in ({'c': 'map', 'buckets': '1', 'memo': '1', 'hash': 'mod2'}, {'c': 'map', 'buckets': '1', 'memo': '1', 'hash': 'rev'}, {'c': 'map', 'buckets': '2', 'memo': '1', 'hash': 'rev'}):
+            trav = ['ins 10', 'ins 15', 'ins 20', 'ins 25', 'itb', 'itn', 'itn', 'itn', 'itn']
+            for upd in (['del 15'], ['del 10'], ['del 20'], ['del 25', 'del 15']):
+                jobs.append((cfg, [trav, upd], 'prefix', 80, ctx['seed'], ()))
+            jobs.append((cfg, [['ins 10', 'ins 15', 'ins 20', 'ins 25', 'itf 15', 'ite', 'itd', 'itn', 'itn'], ['del 15']], 'prefix', 80, ctx['seed'], ()))
         # completeness across buckets: the element the iterator stands on is erased (it is the last of its bucket), later buckets hold
         # elements that stay for the whole traversal and must still be yielded
         for cfg in ({'c': 'map', 'buckets': '8', 'memo': '0'}, {'c': 'map', 'buckets': '2', 'memo': '1', 'hash': 'mod2'}, {'c': 'set'}):
